@@ -526,6 +526,32 @@ func caseAsm(t *testing.T, tp *simrt.Tape, c *Ctx) (res Result) {
 			res.stat("error-message-varies(not-compared)", 1)
 		}
 	}
+	// no state may survive between assemblies: assemble a decoy under the SAME
+	// configuration that defines every identifier of this text as an EQU (and
+	// as a label), then assemble this text again: same result as before
+	if baseOK && vOK && len(res.Viol) == 0 && tp.Draw("asm.clash", 4) == 0 {
+		ids := identifiers(delivered)
+		if len(ids) > 0 {
+			var sb strings.Builder
+			for i, id := range ids {
+				if i%2 == 0 {
+					fmt.Fprintf(&sb, "%s equ %d\n", id, 3+i)
+				} else {
+					fmt.Fprintf(&sb, "%s dat %d\n", id, i)
+				}
+			}
+			runAsm(t, []byte(sb.String()), simrt.ReaderPlan{ErrAt: -1}, simrt.ReplayTape(nil), cfg)
+			again := runAsm(t, delivered, simrt.ReaderPlan{ErrAt: -1}, simrt.ReplayTape(nil), cfg)
+			sub := Result{}
+			if checkAsmRun(&sub, again, &tc, cfgP, "after-decoy") && ((again.err == nil) != (base.err == nil) || warIString(again.w) != warIString(base.w)) {
+				d := map[string]any{"before": fmt.Sprint(base.err, " ", warIString(base.w)), "after": fmt.Sprint(again.err, " ", warIString(again.w)), "decoy": sb.String()}
+				res.add("C14", "C14 isolation assembly result depends on what was assembled before in the same process", d)
+				res.add("C05", "C05 nondeterminism assembly result depends on what was assembled before in the same process", d)
+				res.add("C06", "C06 assembly result depends on what was assembled before in the same process", d)
+			}
+			res.stat("probe.symbol-clash-decoy", 1)
+		}
+	}
 	// thorough tier: fault enumeration for small inputs - truncation and read
 	// error at EVERY byte position, baseline schedule
 	if c.Tier == "thorough" && baseOK && vOK && len(tc.Text) > 0 && len(tc.Text) <= 120 && tp.Draw("asm.enum", 8) == 0 {
@@ -584,4 +610,30 @@ func init() {
 		Real: real, Stubs: stubs,
 		Assume: []string{"legal '88 table and default modifiers written from the ICWS'88 standard / ICWS'94 draft in ref/legal88.go"},
 	})
+}
+
+var reIdent = regexp.MustCompile(`[A-Za-z_][A-Za-z0-9_]*`)
+
+// identifiers returns up to 12 distinct identifier-looking words of a text
+// that are not opcodes, pseudo-ops or predefined constants.
+func identifiers(text []byte) []string {
+	skip := map[string]bool{"equ": true, "org": true, "end": true, "for": true, "rof": true, "coresize": true, "maxlength": true, "maxprocesses": true, "mindistance": true, "assert": true, "name": true, "author": true, "strategy": true, "redcode": true}
+	for _, o := range ops94 {
+		skip[o] = true
+	}
+	seen := map[string]bool{}
+	var out []string
+	for _, m := range reIdent.FindAll(text, 200) {
+		w := string(m)
+		lw := strings.ToLower(w)
+		if skip[lw] || seen[w] || len(w) > 20 {
+			continue
+		}
+		seen[w] = true
+		out = append(out, w)
+		if len(out) == 12 {
+			break
+		}
+	}
+	return out
 }
